@@ -10,12 +10,14 @@ parser options, several fetchers (content / None / (None, None) / cyclic graphs)
 Streams: malformed (token soup + mutated templates), insertion sweep (fragment x position x truncation),
 depth sweep 1..100, width sweep with a measured scaling exponent, bytes with BOM / @charset.
 """
+import json
 import math
 import time
 
 from lib.framework import Check, enc
 from lib.pool import run_cases
 from harness import c01_gen as G
+from harness import c01_kernels as KN
 
 TIME_LIMIT = 20.0          # hard limit per small case (hang detection)
 
@@ -39,6 +41,54 @@ def _ebcdic_charset(case, what):
 
 
 KNOWN = {'C01-nonascii-compatible-charset': _ebcdic_charset}
+
+
+KERNEL_CORPUS = [
+    '', 'a{b:c}', '@media screen, print{a{b:c}} a|b, *.c:hover > d[e="f"]{x:y;z:w}',
+    '@namespace p "u";p|a, *|b, |c, p|*{x:y}', 'a:not(.b):nth-child(2n+1)::after{x:y}', '@media \\28 {a{b:c}}',
+    '@media (color: rgb(1,2,3)){a{b:c}}', '@media screen and (min-width:1px), print and{a{b:c}}',
+    'a\\7C b|c{x:y}', '*|*|*{x:y}', 'a||b{x:y}', '"s"{x:y}', ':nth-child(+ 2n - 1){x:y}', 'a + > b{x:y}',
+    '@media{a{b:c}}', '@media screen{@media print{a{b:c}}}', 'a{b:c', '@media screen{a{b:c}', 'a,{b:c}', ',a{b:c}',
+    '@import "x" screen, (color);', 'z{y:x}a|/**/ b, c{b:c}w{v:u}', '@namespace p "u";p|/**/a{b:c}', '@media screen /*c*/ , /*d*/ print{a{b:c}}', '@media all and (color:#fff){}',
+]
+
+MEDIA_WORDS = ['screen', 'print', 'all', 'ALL', 'only', 'not', 'and', 'AND', 'tv', 'x', '(', ')', ':', ',', ', ', ' ',
+               'color', 'min-width', '1px', '2', '50%', '#fff', '#ffff', 'rgb(1,2,3)', '"s"', '/*c*/', 'U+1-f', '\\28 ', '\\2c ',
+               's\\63reen', '-', '+', '}', ';', '@x', 'url(x)', 'f(', '!']
+
+
+def KN_media(rng):
+    if rng.random() < 0.5:
+        qs = []
+        for _ in range(rng.randint(1, 3)):
+            q = rng.choice(['', 'only ', 'not ']) + rng.choice(['screen', 'print', 'all', 'tv', 'x'])
+            for _ in range(rng.randint(0, 2)):
+                q += ' and (%s%s)' % (rng.choice(['color', 'min-width', 'x']),
+                                      rng.choice(['', ':1px', ': 2', ':#fff', ':"s"', ':red', ': 50%', ':rgb(1,2,3)']))
+            if rng.random() < 0.3:
+                q = '(%s)' % rng.choice(['color', 'min-width:1px']) + rng.choice(['', ' and (x)'])
+            qs.append(q)
+        s = rng.choice([',', ', ', ' , ']).join(qs)
+        if rng.random() < 0.5:
+            return s
+        i = rng.randrange(len(s) + 1)
+        return s[:i] + rng.choice(MEDIA_WORDS) + s[i:]
+    return ' '.join(rng.choice(MEDIA_WORDS) for _ in range(rng.randint(0, 7)))
+
+
+def sel_model_behind(toks):
+    """The selector model `Model/Sel.lean` (owned by C16, imported read-only here) is re-synced to fix 3495bab
+    (`New.append`: a COMMENT directly after a saved namespace prefix keeps the prefix) by C16 in this round; until that
+    lands, model and code differ exactly on preludes in which a `|` is directly followed by a COMMENT token. Such
+    preludes are counted and not compared (this is not a finding of the code)."""
+    return any(a[1] == '|' and b[0] == 'COMMENT' for a, b in zip(toks, toks[1:]))
+
+
+def media_known(toks):
+    """region of C17-missing-handback (known/C17.json): a complete query followed by `and` that is not followed by a
+    complete expression — there the code accepts what the grammar rejects; the Media model follows the code
+    (strict = false), so no exemption is needed unless the two disagree for that reason"""
+    return False
 
 
 def impl_case(case):
@@ -162,7 +212,9 @@ class C01(Check):
     driver_exe = 'drv_c01'
     sources = ('cssutils/parse.py', 'cssutils/serialize.py', 'cssutils/tokenize2.py', 'cssutils/util.py',
                'cssutils/prodparser.py', 'cssutils/css/cssstylesheet.py', 'cssutils/css/value.py',
-               'cssutils/css/selector.py')
+               'cssutils/css/selector.py', 'cssutils/css/selectorlist.py', 'cssutils/css/cssstylerule.py',
+               'cssutils/css/cssmediarule.py', 'cssutils/css/cssstyledeclaration.py', 'cssutils/css/property.py',
+               'cssutils/stylesheets/medialist.py', 'cssutils/stylesheets/mediaquery.py', 'cssutils/cssproductions.py')
     trusted_base = (
         'Model/SerCost.lean: abstract cost model of value serialisation (one do_* entry per function node, k '
         'evaluations of a child per append); tied to serialize.py by counted do_css_CSSFunction entries on generated trees',
@@ -180,12 +232,21 @@ class C01(Check):
         """Props/C01 re-exports theorems of the tokenizer (C05) and structure (C04) kernels: their generated tables
         must be regenerated from the current tree for this check too"""
         files = {}
-        from harness import c05, c04
+        from harness import c05, c04, c16, c17
         files.update(c05.CHECK.translate(ctx))
         files.update(c04.CHECK.translate(ctx))
+        # the composed kernels (Model/ParseAll) run the selector machine and the media engine: their tables too
+        files.update(c16.CHECK.translate(ctx))
+        files.update(c17.CHECK.translate(ctx))
         return files
 
     def run(self, ctx):
+        import os
+        only = os.environ.get('C01_ONLY')          # development aid: run one phase
+        if only:
+            ctx.phase(getattr(self, only), ctx)
+            return
+        ctx.phase(self.corr_kernels, ctx)
         ctx.phase(self.corr_sercost, ctx)
         ctx.phase(self.oracle_streams, ctx)
         ctx.phase(self.oracle_validation, ctx)
@@ -193,6 +254,155 @@ class C01(Check):
         ctx.phase(self.oracle_extremes, ctx)
         ctx.phase(self.oracle_depth, ctx)
         ctx.phase(self.oracle_width, ctx)
+
+    # -- correspondence: the composed kernels ----------------------------------------------------------
+    def kernel_texts(self, ctx):
+        from harness import c04_gen as G4
+        rng = ctx.sub_rng('kernels')
+        texts = [(t, 'corpus') for t in KERNEL_CORPUS]
+        for _ in range(ctx.n(150, 3000)):
+            texts.append((G4.gen_sheet(rng).render()[0], 'sheet'))
+        for _ in range(ctx.n(250, 6000)):
+            texts.append((G.malformed(rng), 'malformed'))
+        NS = '@namespace p "u";@namespace "d";'
+        pairs = list(G.selector_pairs())
+        for i, t in enumerate(rng.sample(pairs, min(len(pairs), ctx.n(250, 100000)))):
+            texts.append(((NS if i % 2 else '') + 'z{y:x}' + t + '{b:c}w{v:u}', 'selector-pieces'))
+        for i in range(ctx.n(250, 6000)):
+            texts.append(((NS if i % 2 else '') + G.selector_soup(rng) + '{b:c}', 'selector-soup'))
+        for i in range(ctx.n(250, 6000)):
+            mq = KN_media(rng)
+            tpl = rng.choice(['@media %s{a{b:c}}', '@media %s{a{b:c}}d{e:f}', '@media %s "n"{a{b:c}}', '@import "x.css" %s;',
+                              '@media %s{@media %s{a{b:c}}}'])
+            texts.append((tpl.replace('%s', mq), 'media-prelude'))
+        seen, out = set(), []
+        for t, k in texts:
+            if t not in seen and '\ud800' not in repr(t) and '\udc00' not in repr(t):
+                seen.add(t)
+                out.append((t, k))
+        return out
+
+    def corr_kernels(self, ctx):
+        import harness.c04 as K
+        T0 = time.time()
+        texts = self.kernel_texts(ctx)
+        res = run_cases(KN.kernel_case, [t for t, _ in texts], timeout=30.0)
+        ctx.notes['kernels_t_impl'] = round(time.time() - T0, 1)
+        ok = [(t, k, r[1]) for (t, k), (_, r) in zip(texts, res) if r[0] == 'ok']
+        for (t, k), (_, r) in zip(texts, res):
+            if r[0] != 'ok':
+                ctx.violate('parseString returns in time bounded by a low polynomial of the input length',
+                            {'input': t, 'input_codepoints': enc(t), 'comments': True, 'validate': True, 'fetch': 'none'},
+                            {'worker': r})
+        models = KN.model_pipes(ctx, [t for t, _, _ in ok], [r['toks1'] for _, _, r in ok])
+        ctx.notes['kernels_t_model'] = round(time.time() - T0, 1)
+        # tokens without comments: one more model run per text, no oracle needed (only the token stream is read)
+        out0 = ctx.driver(['pipe 0 %s -' % enc(t) for t, _, _ in ok]) if ctx.model_ok else [None] * len(ok)
+        sel_lines, sel_idx, med_lines, med_idx = [], [], [], []
+        for i, (t, k, r) in enumerate(ok):
+            for ns, toks, got in r['sel']:
+                if ns is None:
+                    continue
+                sel_lines.append('selcall %s %s' % (KN.ns_wire(ns), KN.wire(toks)))
+                sel_idx.append((i, ns, toks, got))
+            for toks, got in r['media']:
+                med_lines.append('mediacall %s' % KN.wire(toks))
+                med_idx.append((i, toks, got))
+        sel_out = ctx.driver(sel_lines) if ctx.model_ok and sel_lines else []
+        med_out = ctx.driver(med_lines) if ctx.model_ok and med_lines else []
+        ctx.notes['kernels_t_calls'] = round(time.time() - T0, 1)
+        # texts on which the media engine model left its token domain (colour function as a feature value, a
+        # punctuation value carried by a non-CHAR token): the composed result is not comparable there
+        outside = set(i for (i, toks, got), line in zip(med_idx, med_out) if line.startswith('unsupported'))
+        behind = set(i for (i, ns, toks, got) in sel_idx if sel_model_behind(toks))
+        for i, ((t, k, r), (tree, orc), l0) in enumerate(zip(ok, models, out0)):
+            ctx.case(key=('kernels', t), nontrivial=bool(r['sel'] or r['media']) or k == 'malformed', kind='kernels:' + k,
+                     sample={'text': t[:200], 'selector_calls': len(r['sel']), 'media_calls': len(r['media']),
+                             'tokens': len(r['toks1'])})
+            w = {'text': t, 'input_codepoints': enc(t)}
+            if tree is None:
+                continue
+            if isinstance(tree, str):
+                ctx.disagree('kernels/pipe', w, r['real'], tree)
+                continue
+            if tree['stop'] != 'done':
+                ctx.disagree('kernels/tokenizer stop', w, 'returned', tree['stop'])
+            if tree['toks'] != KN.wire(r['toks1']).replace('-', '', 1 if not r['toks1'] else 0):
+                ctx.disagree('kernels/token stream', w, KN.wire(r['toks1']), tree['toks'])
+            if tree['iterations'] != len(r['toks1']):
+                ctx.disagree('kernels/tokenizer iterations', w, len(r['toks1']), tree['iterations'])
+            if tree['iterations'] > len(t) + 3:
+                ctx.disagree('kernels/iteration bound (theorem items_le)', w, len(t) + 3, tree['iterations'])
+            if l0 is not None:
+                if not l0.startswith('{'):
+                    ctx.disagree('kernels/pipe without comments', w, 'tree', l0)
+                else:
+                    t0 = json.loads(l0)
+                    if t0['toks'] != (KN.wire(r['toks0']) if r['toks0'] else ''):
+                        ctx.disagree('kernels/token stream without comments', w, KN.wire(r['toks0']), t0['toks'])
+            if isinstance(r['real'], list) and r['real'][:1] == ['RAISE']:
+                ctx.violate('parseString never raises', dict(w, input=t, comments=True, validate=True, fetch='none'),
+                            {'exception': r['real'][1]})
+                continue
+            if i in outside:
+                ctx.count('kernels:text-outside-media-model')
+                continue
+            if i in behind:
+                ctx.count('kernels:text-with-comment-after-namespace-prefix (selector model awaits re-sync to 3495bab)')
+                continue
+            mp = K.strip_proj(K.proj_rules_model(tree['rules'], r['toks1'], orc))
+            if mp != r['real']:
+                ctx.disagree('kernels/cssRules', w, r['real'], mp)
+        for (i, ns, toks, got), line in zip(sel_idx, sel_out):
+            t = ok[i][0]
+            w = {'text': t, 'input_codepoints': enc(t), 'prelude': KN.wire(toks), 'namespaces': ns}
+            ctx.count('kernels:selector-calls')
+            parts = line.split()
+            if len(parts) != 3:
+                ctx.disagree('kernels/selcall', w, got, line)
+                continue
+            if isinstance(got, str):
+                ctx.violate('the selector parser never raises on a prelude handed over by the dispatcher',
+                            dict(w, input=t, comments=True, validate=True, fetch='none'), {'exception': got})
+                continue
+            if parts[1] != 'dom=1':
+                ctx.disagree('kernels/selector domain (theorem stream_selDom)', w, 'in domain', line)
+            want = 'ok1' if got else 'ok0'
+            if parts[0] == 'raised':
+                ctx.disagree('kernels/selector machine raised inside selDom (theorem selector_machine_total)', w, want, line)
+            elif parts[0] != want and not sel_model_behind(toks):
+                ctx.disagree('kernels/selector machine outcome', w, want, line)
+        for (i, toks, got), line in zip(med_idx, med_out):
+            t = ok[i][0]
+            w = {'text': t, 'input_codepoints': enc(t), 'prelude': KN.wire(toks)}
+            ctx.count('kernels:media-calls')
+            parts = line.split()
+            if len(parts) != 3:
+                ctx.disagree('kernels/mediacall', w, got, line)
+                continue
+            if isinstance(got, str):
+                ctx.violate('the media parser never raises on a prelude handed over by the dispatcher',
+                            dict(w, input=t, comments=True, validate=True, fetch='none'), {'exception': got})
+                continue
+            if parts[1] != 'dom=1':
+                ctx.count('kernels:media-prelude-outside-mediaDom')
+                if parts[0] == 'unsupported':
+                    continue
+            if parts[0] == 'unsupported':
+                ctx.disagree('kernels/media engine left its model inside mediaDom (theorem media_engine_total_partial)',
+                             w, got, line)
+                continue
+            want = 'ok1' if got else 'ok0'
+            if parts[0] != want and not media_known(toks):
+                ctx.disagree('kernels/media engine outcome', w, want, line)
+
+        ctx.notes['kernels_t_total'] = round(time.time() - T0, 1)
+        import os
+        if os.environ.get('C01_DEBUG'):
+            import sys
+            print('NOTES', ctx.notes, file=sys.stderr)
+            for d in ctx.disagreements:
+                print('DIS', json.dumps(d)[:1500], file=sys.stderr)
 
     # -- correspondence: serializer cost -----------------------------------------------------------
     def corr_sercost(self, ctx):
